@@ -52,6 +52,13 @@ impl<'a> VisitMut for BodyRules<'a> {
     fn visit_expr_mut(&mut self, e: &mut Expr) {
         visit_mut::visit_expr_mut(self, e);
         let mut repl: Option<Expr> = None;
+        // O (configured): a named std-only expression is replaced by a call to an outlined helper whose body is that expression
+        if let Some(fs) = self.unit.fns.get(&self.fnpath) {
+            if !fs.outline_exprs.is_empty() && matches!(e, Expr::MethodCall(_) | Expr::Call(_)) {
+                let key = norm(&e.to_token_stream().to_string());
+                for (a, b) in &fs.outline_exprs { if *a == key { repl = Some(syn::parse_str(b).expect("outline-expr replacement")); self.outline(&format!("expr:{}", a)); } }
+            }
+        }
         if let Expr::MethodCall(m) = e {
             let name = m.method.to_string();
             // R: drop .borrow() / .borrow_mut() / .get_mut() on former cells
